@@ -60,6 +60,7 @@ def judge(s, ev, res):
         with common.Watchdog(30):
             got = xt.read(t, s.h)
             gotv = xt.read(t, hist.view_of(s)) if t[0] != "U" else got
+            goto = xt.read(t, s.v0) if s.v0 is not None else got
     except Exception as e:
         res.outcomes["reread-raises"] += 1
         return [common.violation("C10.locality", "reread-raises:" + common.exc_failure(e), {}, {}, repr(e))], False
@@ -69,6 +70,8 @@ def judge(s, ev, res):
         out.append(common.violation("C10.locality", "value-mismatch", {}, {}, "first difference at %r: %s" % xt.vdiff(got, s.mv)))
     elif not xt.veq(gotv, s.mv):
         out.append(common.violation("C10.locality", "value-mismatch-through-view", {}, {}, "first difference at %r: %s" % xt.vdiff(gotv, s.mv)))
+    elif not xt.veq(goto, s.mv):
+        out.append(common.violation("C10.locality", "value-mismatch-through-older-view", {}, {}, "a view that exists since construction reads: first difference at %r: %s" % xt.vdiff(goto, s.mv)))
     if out:
         return out, False
     # structure unchanged
